@@ -901,6 +901,19 @@ def oracle_sym(objs, st, kind, tol=1e-7):
             if kind == 'rev' and isinstance(v, np.ndarray) and v.ndim == 1 and v.shape[0] == q.nphi:
                 return s * np.roll(v[::-1], 1)
             return s * v
+        if kind in ('mir', 'rev'):
+            # the same twin reached through the DOF interface of an existing object must equal the freshly built twin
+            q3 = _copy.deepcopy(q)
+            nf = q3.nfourier
+            x = q3.get_dofs().copy()
+            if kind == 'mir':
+                x[nf:2 * nf] *= -1; x[3 * nf:4 * nf] *= -1; x[4 * nf + 1] *= -1; x[4 * nf + 2] *= -1; x[4 * nf + 5] *= -1
+            else:
+                x[nf:2 * nf] *= -1; x[2 * nf:3 * nf] *= -1; x[4 * nf + 5] *= -1
+            q3.set_dofs(x)
+            a3, a2 = numeric_attrs(q3), numeric_attrs(q2)
+            w3 = max((reldiff(a3[k_], a2[k_]) for k_ in a2 if k_ in a3), default=0.0)
+            st.check('the %s twin reached through set_dofs on an existing object equals the freshly constructed twin' % ('mirror' if kind == 'mir' else 'reversed'), w3, 1e-12, cid)
         unknown = [k for k in numeric_attrs(q) if k not in tab and not k.endswith('_cylindrical') and k not in ('grad_grad_B', 'grad_grad_B_alt')]
         compare_profiles(q, q2, mp, tol, st, {'scale': 'outputs scale with the powers of the length and field units given by their dimensions',
                                                'frv': 'field reversal maps every output by its fixed sign', 'mir': 'mirror Z -> -Z maps every output by its fixed sign',
@@ -1506,8 +1519,20 @@ def oracle_C16(objs, st=None, nhist=3, hlen=6, n_named=None, seed=0):
             q = _copy.deepcopy(q0)
             hist = []
             for step in range(hlen):
-                op = rng.choice(['set', 'resize_up', 'resize_down', 'calc', 'get', 'setget'])
-                if op == 'set':
+                op = rng.choice(['set', 'resize_up', 'resize_down', 'calc', 'get', 'setget', 'mirror', 'reverse'])
+                if op in ('mirror', 'reverse'):
+                    # move the object to its mirror / toroidally reversed twin through the DOF interface (changes the helicity of
+                    # quasi-helical configurations): everything derived must follow
+                    nf = q.nfourier
+                    x = q.get_dofs().copy()
+                    if op == 'mirror':
+                        x[nf:2 * nf] *= -1; x[3 * nf:4 * nf] *= -1       # zs, zc
+                        x[4 * nf + 1] *= -1; x[4 * nf + 2] *= -1; x[4 * nf + 5] *= -1   # sigma0, B2s, I2
+                    else:
+                        x[nf:2 * nf] *= -1; x[2 * nf:3 * nf] *= -1       # zs, rs
+                        x[4 * nf + 5] *= -1                               # I2
+                    q.set_dofs(x); hist.append('set_dofs(%s twin)' % op)
+                elif op == 'set':
                     x = q.get_dofs()
                     x = x * (1 + 0.02 * rng.normal(size=x.size))
                     x[4 * q.nfourier + 6] = abs(x[4 * q.nfourier + 6]) + 0.1   # B0 > 0
